@@ -23,8 +23,36 @@ inline cocls::async<void> pub_waiter(sub_t &s, pw_rec &rec) {
     rec.done++;
 }
 
+// Subscriber objects of the single-thread histories live in a small fixed pool (lowest free cell first), so that object ADDRESSES are
+// reused as soon as a subscriber leaves - as they are for subscribers kept on the stack or inside containers. (The publisher
+// identifies its subscribers by address.)
+struct sub_pool {
+    static constexpr int N = 16;
+    alignas(sub_t) unsigned char mem[N][sizeof(sub_t)];
+    bool used[N] = {};
+    template <typename... A> sub_t *make(A &&...a) {
+        for (int i = 0; i < N; i++) if (!used[i]) { used[i] = true; return new (mem[i]) sub_t(std::forward<A>(a)...); }
+        return nullptr;
+    }
+    void destroy(sub_t *p) { p->~sub_t(); used[(reinterpret_cast<unsigned char *>(p) - mem[0]) / sizeof(sub_t)] = false; }
+};
+struct pooled_sub { // move-only owner of a pooled subscriber (interface subset of unique_ptr)
+    sub_pool *pool = nullptr; sub_t *p = nullptr;
+    pooled_sub() = default;
+    pooled_sub(sub_pool *pl, sub_t *pp) : pool(pl), p(pp) {}
+    pooled_sub(pooled_sub &&o) noexcept : pool(o.pool), p(o.p) { o.p = nullptr; }
+    pooled_sub &operator=(pooled_sub &&o) noexcept { if (this != &o) { reset(); pool = o.pool; p = o.p; o.p = nullptr; } return *this; }
+    ~pooled_sub() { reset(); }
+    void reset() { if (p) { pool->destroy(p); p = nullptr; } }
+    sub_t *release() { sub_t *q = p; p = nullptr; return q; }
+    sub_t *get() const { return p; }
+    sub_t &operator*() const { return *p; }
+    sub_t *operator->() const { return p; }
+    explicit operator bool() const { return p != nullptr; }
+};
+
 struct psub_m { // model of one subscriber
-    std::unique_ptr<sub_t> s;
+    pooled_sub s;
     int mode = 0;
     long cur = 0;         // position of the last consumed value
     bool kicked = false, eos = false;
@@ -35,6 +63,7 @@ struct psub_m { // model of one subscriber
 
 struct pub_hist {
     std::unique_ptr<pub_t> pub;
+    sub_pool pool;
     long N = 0; bool closed = false;
     size_t maxlen = 0, minlen = 1; // maxlen 0 = unlimited
     std::vector<psub_m> subs;
@@ -102,8 +131,15 @@ inline std::string run_publisher_history(vf::rng &r, std::string &trace_out, int
     H.subs.reserve(16);
     int len = 2 + (int)r.below(r.chance(1, 4) ? 50 : 18);
     auto live = [&]() { std::vector<int> v; for (size_t i = 0; i < H.subs.size(); i++) if (H.subs[i].s) v.push_back((int)i); return v; };
+    // "churn" histories: subscribers come and go all the time (registration slots and object addresses are recycled), kicks are frequent
+    bool churn = r.chance(1, 4);
+    if (churn) H.trace += "[churn] ";
     for (int step = 0; step < len && H.err.empty(); step++) {
         uint32_t x = r.below(100);
+        if (churn) { // remap: publish 12, batch 3, subscribe 25, next 25, kick 13, leave 19, close 1
+            uint32_t y = r.below(100);
+            x = y < 12 ? 0 : y < 15 ? 22 : y < 40 ? 30 : y < 65 ? 42 : y < 78 ? 80 : y < 97 ? 86 : y < 98 ? 93 : 99;
+        }
         ops_done++;
         auto lv = live();
         snprintf(vf::g_crash.buf, sizeof vf::g_crash.buf, "{\"scenario\":\"publisher_history\",\"ops_so_far\":\"%.400s\"}", H.trace.c_str());
@@ -117,16 +153,16 @@ inline std::string run_publisher_history(vf::rng &r, std::string &trace_out, int
         } else if (x < 42 && H.subs.size() < 14) { // subscribe
             psub_m m; m.mode = (int)r.below(3);
             uint32_t how = r.below(3);
-            if (how == 0 || H.closed) { m.cur = H.N; m.s = std::make_unique<sub_t>(*H.pub, pm_type(m.mode)); H.trace += std::string("sub(") + pm_name(m.mode) + ") "; }
+            if (how == 0 || H.closed) { m.cur = H.N; m.s = pooled_sub(&H.pool, H.pool.make(*H.pub, pm_type(m.mode))); H.trace += std::string("sub(") + pm_name(m.mode) + ") "; }
             else if (how == 1) {
                 long keep = (long)std::min<size_t>(H.minlen, (size_t)H.N);
                 long pos = H.N - (long)r.below((uint32_t)keep + 1);
-                m.cur = pos; m.s = std::make_unique<sub_t>(*H.pub, (size_t)pos, pm_type(m.mode));
+                m.cur = pos; m.s = pooled_sub(&H.pool, H.pool.make(*H.pub, (size_t)pos, pm_type(m.mode)));
                 H.trace += std::string("sub@") + std::to_string(pos) + "(" + pm_name(m.mode) + ") ";
             } else if (!lv.empty()) {
                 psub_m &src = H.subs[(size_t)lv[r.below((uint32_t)lv.size())]];
                 m.mode = src.mode; m.cur = src.cur; m.kicked = false; m.last_val = src.last_val;
-                m.s = std::make_unique<sub_t>(*src.s);
+                m.s = pooled_sub(&H.pool, H.pool.make(*src.s));
                 H.trace += std::string("copy(") + (src.parked >= 0 ? "parked " : "") + pm_name(m.mode) + "@" + std::to_string(src.cur) + ") ";
                 if (src.kicked || src.eos) { m.s.reset(); } // copying a finished subscriber: outside the statement, dropped
             } else continue;
